@@ -249,15 +249,16 @@ def _needs_json_escape(s):
 
 
 def _x_key_needs_json_escape(case, message):
-    """eval_json_path quotes a key as ."key" with " -> \\" only.  SQLite's JSON1 compares the label with the raw
-    (JSON-escaped) member name and knows no escapes inside "...", so a key containing a double quote, a backslash or
-    a control character is never found; the fallback's json_path_re ("([^"]*)") cannot parse a label with a double quote."""
-    if case.get('kind') != 'json' or 'failed:' in message:
+    """open finding C29-key-needs-json-escape, narrowed after the repair 5315d40 (keys are now written JSON-escaped and the
+    fallback parser decodes them): what remains is JSON1 mode on SQLite older than 3.45, where json_extract() has no path
+    syntax for a member name that contains a double quote TOGETHER WITH '.' or '[' (a quoted label ends at the first
+    double quote, an unquoted one at the first '.' or '[')."""
+    import sqlite3
+    if case.get('kind') != 'json' or 'failed:' in message or case.get('mode') != 'json1':
         return False
-    bad = [k for k in M.path_keys(case['op']) if isinstance(k, str) and _needs_json_escape(k)]
-    if case['mode'] == 'fallback':
-        bad = [k for k in bad if '"' in k]
-    return bool(bad)
+    if sqlite3.sqlite_version_info >= (3, 45):
+        return False
+    return any(isinstance(k, str) and '"' in k and ('.' in k or '[' in k) for k in M.path_keys(case['op']))
 
 
 def _x_float_zero_is_true(case, message):
